@@ -252,6 +252,22 @@ func (p *AddressPool) Release(duid string) {
 	}
 }
 
+// Decline takes ip out of circulation after a Decline from the client: if ip is
+// that client's allocation the allocation is dropped without returning ip to
+// the available list, so that it is not handed out again. It reports whether
+// ip was the client's allocation.
+func (p *AddressPool) Decline(duid string, ip net.IP) bool {
+	p.mu.Lock()
+	defer p.mu.Unlock()
+
+	cur, ok := p.allocated[duid]
+	if !ok || !cur.Equal(ip) {
+		return false
+	}
+	delete(p.allocated, duid)
+	return true
+}
+
 // NewPrefixPool creates a new prefix delegation pool
 func NewPrefixPool(cidr string, delegationLen uint8, preferred, valid uint32) (*PrefixPool, error) {
 	_, ipnet, err := net.ParseCIDR(cidr)
@@ -688,8 +704,61 @@ func (s *Server) handleDecline(msg *Message, addr *net.UDPAddr) {
 		zap.String("from", addr.String()),
 	)
 
-	// For now, just release and let client try again
-	s.handleRelease(msg, addr)
+	clientIDOpt := msg.GetOption(OptClientID)
+	if clientIDOpt == nil {
+		return
+	}
+
+	if s.addressPool == nil {
+		// Integrated allocator: it has no way to quarantine an address, release as before
+		s.handleRelease(msg, addr)
+		return
+	}
+
+	clientDUID := string(clientIDOpt.Data)
+
+	// The addresses the client found to be in use on the link
+	var declined []net.IP
+	for _, ianaOpt := range msg.GetAllOptions(OptIANA) {
+		iana, err := ParseIANA(ianaOpt.Data)
+		if err != nil {
+			continue
+		}
+		for _, iaAddrOpt := range iana.Options {
+			if iaAddrOpt.Code != OptIAAddr {
+				continue
+			}
+			if iaAddr, err := ParseIAAddress(iaAddrOpt.Data); err == nil {
+				declined = append(declined, iaAddr.Address)
+			}
+		}
+	}
+
+	// Take them away from the client without returning them to the pool: a
+	// declined address must not be offered again. A delegated prefix stays.
+	s.leasesMu.Lock()
+	lease, hasLease := s.leases[clientDUID]
+	for _, ip := range declined {
+		if s.addressPool.Decline(clientDUID, ip) && hasLease && lease.Address != nil && lease.Address.Equal(ip) {
+			lease.Address = nil
+		}
+	}
+	if hasLease && lease.Address == nil && lease.Prefix == nil {
+		delete(s.leases, clientDUID)
+	}
+	s.leasesMu.Unlock()
+
+	response := &Message{
+		Type:          MsgTypeReply,
+		TransactionID: msg.TransactionID,
+		Options: []Option{
+			MakeClientIDOption(clientIDOpt.Data),
+			MakeServerIDOption(s.serverDUID),
+			MakeStatusCodeOption(StatusSuccess, "Declined"),
+		},
+	}
+	s.sendResponse(response, addr)
+	atomic.AddUint64(&s.repliesSent, 1)
 }
 
 // handleInformationRequest handles an Information-Request message
